@@ -625,7 +625,7 @@ def variant(rng, text: str) -> str:
 
     lines = text.split("\n")
     for _ in range(1 + (rng.random() < 0.4)):
-        k = rng.randrange(7)
+        k = rng.randrange(8)
         m = re.search(r"project\s+\w+\s+\"[^\"]*\"\s+(\d{4})-(\d{2})-(\d{2})", text)
         try:
             base = date(int(m.group(1)), int(m.group(2)), int(m.group(3))) if m else date(2025, 1, 6)
@@ -657,6 +657,14 @@ def variant(rng, text: str) -> str:
             idx = [i for i, ln in enumerate(lines) if ln.strip().startswith(("efficiency ", "limits {"))]
             if idx:
                 del lines[_pick(rng, idx)]
+        elif k == 7:  # drop a macro definition or the 'now' attribute: the sibling still refers to it
+            idx = [i for i, ln in enumerate(lines) if ln.startswith("macro ") and ln.rstrip().endswith("]")]
+            if idx:
+                del lines[_pick(rng, idx)]
+            else:
+                idx = [i for i, ln in enumerate(lines) if ln.strip().startswith("now ")]
+                if idx:
+                    del lines[idx[0]]
         else:  # change a priority / add one
             idx = [i for i, ln in enumerate(lines) if re.match(r"\s*(effort) \d+", ln)]
             if idx:
